@@ -498,6 +498,8 @@ def layer_crawl(tape, r, tier):
                 kind = tape.choice(('rst', 'fin', 'data_rst', 'reply', 'reply', 'stall'), 'crawl.ftp.fault')
                 at = tape.draw(14, 'crawl.ftp.at')
                 ftp_faults[at] = ('reply', FTP_BAD_REPLIES[tape.draw(len(FTP_BAD_REPLIES), 'crawl.ftp.reply')]) if kind == 'reply' else kind
+            if tape.chance(1, 3, 'crawl.ftp.pasv_reuse'):
+                ftp_faults['pasv_reuse'] = True
             r.probes['crawl_ftp'] += 1
         site.finalize()
         opts = {'robots': with_robots, 'recursive': True, 'level': 'inf', 'page_requisites': True, 'tries': 2}
@@ -540,7 +542,7 @@ def layer_crawl(tape, r, tier):
         out = crawl.run_app(tape, r, site, argv, concurrency, sandbox, setup=setup, budget_vtime=500_000.0)
         rows = crawl.read_rows(dbpath)
         server = out['server']
-        muts = [(x.target, x.mut) for x in hostile] + ([('ftp', ftp_urls, sorted(ftp_faults.items()))] if ftp_tree is not None else [])
+        muts = [(x.target, x.mut) for x in hostile] + ([('ftp', ftp_urls, sorted(ftp_faults.items(), key=str))] if ftp_tree is not None else [])
         if out.get('hang'):
             r.violate(P, 'hang', 'crawl', out['hang'][:900])
         elif out.get('exception'):
